@@ -22,12 +22,12 @@ func init() {
 		Fixtures: []string{"guardcut", "provenance"},
 		Variants: []Variant{
 			{Name: "event-data-is-payload", File: pkgProxy + "/session_backend_play.go",
-				Old: "\t\tdata:       clone,\n\t\tforward:    true,\n\t}, func(pme *PluginMessageEvent) {\n\t\tif pme.Allowed() && b.serverConn.active() {\n\t\t\tb.forwardToPlayer(nil",
-				New: "\t\tdata:       pc.Payload,\n\t\tforward:    true,\n\t}, func(pme *PluginMessageEvent) {\n\t\tif pme.Allowed() && b.serverConn.active() {\n\t\t\tb.forwardToPlayer(nil",
+				Old:    "\t\tdata:       clone,\n\t\tforward:    true,\n\t}, func(pme *PluginMessageEvent) {\n\t\tif pme.Allowed() && b.serverConn.active() {\n\t\t\tb.forwardToPlayer(nil",
+				New:    "\t\tdata:       pc.Payload,\n\t\tforward:    true,\n\t}, func(pme *PluginMessageEvent) {\n\t\tif pme.Allowed() && b.serverConn.active() {\n\t\t\tb.forwardToPlayer(nil",
 				Expect: "event-data:"},
 			{Name: "register-fires-on-error", File: pkgProxy + "/session_client_play.go",
-				Old: "if backendConn.WritePacket(packet) == nil {\n\t\t\tc.proxy().event.Fire(&PlayerChannelRegisterEvent{",
-				New: "if backendConn.WritePacket(packet) != nil {\n\t\t\tc.proxy().event.Fire(&PlayerChannelRegisterEvent{",
+				Old:    "if backendConn.WritePacket(packet) == nil {\n\t\t\tc.proxy().event.Fire(&PlayerChannelRegisterEvent{",
+				New:    "if backendConn.WritePacket(packet) != nil {\n\t\t\tc.proxy().event.Fire(&PlayerChannelRegisterEvent{",
 				Expect: "register-event"},
 			{Name: "forward-other-data", File: pkgProxy + "/session_client_initial_connect.go",
 				Old: "\t\t\t\t\tData:    pme.Data(),", New: "\t\t\t\t\tData:    packet.Data[:0],", Expect: "forwarded-is-seen"},
@@ -94,7 +94,9 @@ func runC25(c *Ctx) {
 			c.Check("register-event-polarity", "Fire@"+shortName(fn), f, !onErr,
 				"PlayerChannelRegisterEvent is only fired when forwarding the registration FAILED; it must fire when the registration is forwarded")
 			// dominated by IsRegister
-			g, n := MustCross(f, func(e Edge, cond ssa.Value, truth bool) bool { return boolCallEdge(cond, truth, true, callSuffix("plugin.IsRegister")) })
+			g, n := MustCross(f, func(e Edge, cond ssa.Value, truth bool) bool {
+				return boolCallEdge(cond, truth, true, callSuffix("plugin.IsRegister"))
+			})
 			c.Check("register-event-scope", "Fire@"+shortName(fn), f, g && n > 0, "the register event must only fire for channel registration messages")
 			// the forwarding write that precedes it: from its success every path fires
 			for _, w := range callsIn(fn, func(nm string, cc *ssa.CallCommon) bool { return methodName(cc) == "WritePacket" }) {
